@@ -99,6 +99,7 @@ EndLn     == Ln("PgpEnd", NoText, NoText, FALSE)
 ----------------------------------------------------------------------------
 (* reader state *)
 RInit(raw) == [raw |-> raw, stopped |-> FALSE,
+               filt |-> FALSE, want |-> {},     \* fields=...: only names in want are kept (filt = FALSE: all)
                done |-> <<>>,        \* completed paragraphs (sequences of [k, v])
                donePay |-> <<>>,     \* their payloads (only read by GpgMvParse)
                atBeg |-> TRUE, first |-> TRUE, gst |-> "SAFE", pre |-> FALSE,
@@ -166,11 +167,15 @@ BranchOf(s, c) ==
 \* ---- effects
 \* the paragraph is finished: IterParagraphs yields it and starts a new reader, or stops when it is empty
 EndPara(s) == LET f == Flush(s) IN
-  [RInit(s.raw) EXCEPT !.done = IF f = <<>> THEN s.done ELSE Append(s.done, f),
+  [RInit(s.raw) EXCEPT !.filt = s.filt, !.want = s.want,
+                       !.done = IF f = <<>> THEN s.done ELSE Append(s.done, f),
                        !.donePay = Append(s.donePay, s.payl),
                        !.stopped = (f = <<>>)]
 Seen(s)      == [s EXCEPT !.atBeg = FALSE, !.first = FALSE]
 TakeLine(s, ln) == [Seen(s) EXCEPT !.pay = TRUE, !.payl = Append(s.payl, ln)]
+\* fields=[...]: a field line whose name is not wanted closes the current field and opens none
+\* (its continuation lines are then orphans)
+Unwanted(s, ln) == s.filt /\ ln.k \notin s.want
 FirstText(ln) == IF TrimFirst \/ ~ln.sp THEN ln.t ELSE 1000 + ln.t   \* (negative control only)
 
 Apply(b, s, ln) ==
@@ -184,10 +189,12 @@ Apply(b, s, ln) ==
     [] b = "PgpEnd"             -> EndPara(s)
     [] b = "BlankEndsParagraph" -> EndPara(s)
     [] b = "BlankInArmoredBody" -> Seen(s)
-    [] b = "FieldSingle"        -> [TakeLine(s, ln) EXCEPT !.fields = Flush(s), !.open = TRUE,
-                                                          !.curkey = ln.k, !.content = <<FirstText(ln)>>]
-    [] b = "FieldMulti"         -> [TakeLine(s, ln) EXCEPT !.fields = Flush(s), !.open = TRUE,
-                                                          !.curkey = ln.k, !.content = <<NoText>>]
+    [] b = "FieldSingle"        -> IF Unwanted(s, ln) THEN [TakeLine(s, ln) EXCEPT !.fields = Flush(s), !.open = FALSE]
+                                   ELSE [TakeLine(s, ln) EXCEPT !.fields = Flush(s), !.open = TRUE,
+                                                                !.curkey = ln.k, !.content = <<FirstText(ln)>>]
+    [] b = "FieldMulti"         -> IF Unwanted(s, ln) THEN [TakeLine(s, ln) EXCEPT !.fields = Flush(s), !.open = FALSE]
+                                   ELSE [TakeLine(s, ln) EXCEPT !.fields = Flush(s), !.open = TRUE,
+                                                                !.curkey = ln.k, !.content = <<NoText>>]
     [] b = "ContAppend"         -> [TakeLine(s, ln) EXCEPT !.content = Append(s.content, ln.t)]
     [] b = "ContOrphan"         -> TakeLine(s, ln)
     [] b = "Ignored"            -> TakeLine(s, ln)
@@ -212,6 +219,7 @@ Run(raw, ls) == RunRange(RInit(raw), ls, 1, Len(ls))
 Finish(s) == IF s.stopped THEN s.done
              ELSE LET f == Flush(s) IN IF f = <<>> THEN s.done ELSE Append(s.done, f)
 
+ParseW(ls, W) == Finish(RunRange([RInit(FALSE) EXCEPT !.filt = TRUE, !.want = W], ls, 1, Len(ls)))   \* fields=W
 Parse(ls)    == Finish(Run(FALSE, ls))                       \* list(Deb822.iter_paragraphs(x))
 ParseOne(ls) == LET r == Parse(ls) IN IF r = <<>> THEN <<>> ELSE r[1]    \* Deb822(x)
 
@@ -321,6 +329,7 @@ ArmorInvariant ==
     Len(P) = 1 => \A a \in ArmorShapes : LET A == Armor(D, a) IN
         /\ Parse(A) = P
         /\ ParseOne(A) = P[1]
+        /\ FirstPayload(A) = D             \* Deb822.gpg_stripped_paragraph / split_gpg_and_payload()[1]
         /\ \A i \in 0..Len(A) : Parse(InsertAt(A, i, CommentLn)) = P
         /\ Parse(AllComments(A)) = P
         /\ \A pre \in Leads : Parse(pre \o A) = P
@@ -367,6 +376,20 @@ BigInvariant ==
          /\ Len(P) = 1 => /\ Parse(Armor(D, BigArmor)) = P
                           /\ GpgMvParse(Armor(D, BigArmor)) = P[1]
                           /\ GpgMvParse(D) = P[1]
+
+\* fields=W keeps exactly the fields named in W, in order -- as long as every paragraph keeps one
+\* (iteration stops at the first paragraph that is left empty: unspecified for C02)
+FilterDoc(Q, W) == [p \in 1..Len(Q) |-> SelectSeq(Q[p], LAMBDA fl : fl.k \in W)]
+FieldsInvariant == \A W \in SUBSET {1, 2, 3} :
+                      (\A p \in 1..Len(P) : \E f \in 1..Len(P[p]) : P[p][f].k \in W) => ParseW(D, W) = FilterDoc(P, W)
+\* a white-space-only line (>= 2 characters, token 888) put at position i: what the reader returns
+\* under the strictness flag of this configuration (emitted for both values of WsSeparates)
+WsLnT == Ln("WsOnly", NoText, 888, FALSE)
+EmitWs == Emit => PrintT(<<"WSAT", ToJson([shape |-> doc, np |-> Len(doc),
+                                          at |-> [i \in 1..(Len(D) + 1) |-> Parse(InsertAt(D, i - 1, WsLnT))],
+                                          gat |-> IF Len(doc) = 1      \* the same through the Dsc / Changes pre-pass
+                                                  THEN [i \in 1..(Len(D) + 1) |-> GpgMvParse(InsertAt(D, i - 1, WsLnT))]
+                                                  ELSE <<>>])>>)
 
 \* one CASE line per document: the shape, dump(P) and what the reader must return for it
 EmitCase == Emit => PrintT(<<"CASE", ToJson([shape |-> doc, doc |-> P, lines |-> D, parse |-> Parse(D),
